@@ -257,7 +257,8 @@ func TestLinStalled(t *testing.T) {
 		lo := keysByBucket(fmt.Sprintf("lo%d", hi), 0, 49, 3)
 		hiK := keysByBucket(fmt.Sprintf("hi%d", hi), 81, 127, 3)
 		sentinel := keysByBucket(fmt.Sprintf("se%d", hi), 50, 63, 1)[0]
-		blocker := keysByBucket(fmt.Sprintf("bl%d", hi), 64, 64, 1)[0]
+		bl := keysByBucket(fmt.Sprintf("bl%d", hi), 64, 64, 2)
+		blocker, inBlocked := bl[0], bl[1] // inBlocked ("kz"): a long-expired entry in the shard whose lock the blocker holds
 
 		km := &KeyMap{ByModel: map[string][]byte{}, ByReal: map[string]string{}}
 		for i, k := range append(append([][]byte{}, lo...), hiK...) {
@@ -360,6 +361,12 @@ func TestLinStalled(t *testing.T) {
 		sop.Ret = atomic.AddInt64(&stamp, 1)
 		record(sop)
 
+		zop := linOp{ID: int(atomic.AddInt64(&idc, 1)), G: 0, Op: "Write", K: "kz", V: "inblocked", Cls: "old"}
+		zop.Call = atomic.AddInt64(&stamp, 1)
+		_ = be.Write(classCtx("old"), inBlocked, "inblocked")
+		zop.Ret = atomic.AddInt64(&stamp, 1)
+		record(zop)
+
 		// blocker parks inside the stats call-out under the lock of shard 64
 		var wg sync.WaitGroup
 
@@ -422,6 +429,16 @@ func TestLinStalled(t *testing.T) {
 		close(release)
 		wg.Wait()
 
+		// the batch operation has returned: it must have dealt with the shard it had to wait for
+		{
+			op := linOp{ID: int(atomic.AddInt64(&idc, 1)), G: 0, Op: "Read", K: "kz"}
+			op.Call = atomic.AddInt64(&stamp, 1)
+			rr := be.Read(context.Background(), inBlocked)
+			op.Ret = atomic.AddInt64(&stamp, 1)
+			op.Res, op.RV = rr.Class, rr.V
+			record(op)
+		}
+
 		// post-phase: a full janitor cycle, then every key is read
 		op := linOp{ID: int(atomic.AddInt64(&idc, 1)), G: 0, Op: "Cleanup"}
 		op.Call = atomic.AddInt64(&stamp, 1)
@@ -429,8 +446,8 @@ func TestLinStalled(t *testing.T) {
 		op.Ret = atomic.AddInt64(&stamp, 1)
 		record(op)
 
-		km.ByModel["ks"], km.ByModel["kb"] = sentinel, blocker
-		allKeys := append(append([]string{}, models...), "ks", "kb")
+		km.ByModel["ks"], km.ByModel["kb"], km.ByModel["kz"] = sentinel, blocker, inBlocked
+		allKeys := append(append([]string{}, models...), "ks", "kb", "kz")
 
 		for _, mk := range allKeys {
 			op := linOp{ID: int(atomic.AddInt64(&idc, 1)), G: 0, Op: "Read", K: mk}
